@@ -104,45 +104,77 @@ pub fn strip_inflight(mut v: Value) -> Value {
 
 /// The non-appending part of the read surface, evaluated on an open store.
 pub fn surface(live: &Live, sb: &Sandbox, tid: &str, p: &Params, anchor: Option<&str>) -> BTreeMap<String, Outcome> {
+    surface_filtered(live, sb, tid, p, anchor, None)
+}
+
+/// Every read on its OWN fresh copy of the store as found (so one read cannot heal the caches
+/// for the next one: e.g. `replay` rebuilds a missing full sidecar).
+pub fn surface_isolated(sb: &Sandbox, tid: &str, p: &Params, anchor: Option<&str>) -> BTreeMap<String, Outcome> {
+    let mut keys: Vec<String> = vec!["replay".into(), "cursor_status".into(), "selection_status".into(), "compile".into()];
+    for i in 0..p.strides.len().min(p.limits.len()) {
+        keys.push(format!("cut_points#{i}"));
+        keys.push(format!("status#{i}"));
+    }
     let mut out = BTreeMap::new();
+    for k in keys {
+        let f = sb.fork("iso");
+        let live = f.open();
+        let one = surface_filtered(&live, &f, tid, p, anchor, Some(&k));
+        out.extend(one);
+    }
+    out
+}
+
+struct Filtered<'a> {
+    only: Option<&'a str>,
+    map: BTreeMap<String, Outcome>,
+}
+
+impl Filtered<'_> {
+    fn wants(&self, key: &str) -> bool {
+        self.only.map(|o| o == key).unwrap_or(true)
+    }
+    fn insert(&mut self, key: String, f: impl FnOnce() -> Outcome) {
+        if self.wants(&key) {
+            let v = f();
+            self.map.insert(key, v);
+        }
+    }
+}
+
+pub fn surface_filtered(live: &Live, sb: &Sandbox, tid: &str, p: &Params, anchor: Option<&str>, only: Option<&str>) -> BTreeMap<String, Outcome> {
+    let mut out = Filtered { only, map: BTreeMap::new() };
     let s = &live.store;
-    out.insert(
-        "replay".to_string(),
-        from_guarded(guarded(|| s.replay_events(tid)), |ev| Value::Array(model::wire(&ev))),
-    );
+    out.insert("replay".to_string(), || {
+        from_guarded(guarded(|| s.replay_events(tid)), |ev| Value::Array(model::wire(&ev)))
+    });
     for (i, (stride, limit)) in p.strides.iter().zip(p.limits.iter()).enumerate() {
-        out.insert(
-            format!("cut_points#{i}"),
+        out.insert(format!("cut_points#{i}"), || {
             from_guarded(
-                guarded(|| {
-                    s.compaction_cut_points_v1(tid, CompactionCutPointsV1Request { stride_messages: *stride, limit: *limit })
-                }),
+                guarded(|| s.compaction_cut_points_v1(tid, CompactionCutPointsV1Request { stride_messages: *stride, limit: *limit })),
                 to_v,
-            ),
-        );
-        out.insert(
-            format!("status#{i}"),
+            )
+        });
+        out.insert(format!("status#{i}"), || {
             from_guarded(
                 guarded(|| s.compaction_status_v1(tid, CompactionStatusV1Request { stride_messages: *stride })),
                 |r| strip_inflight(to_v(r)),
-            ),
-        );
+            )
+        });
     }
-    out.insert(
-        "cursor_status".to_string(),
+    out.insert("cursor_status".to_string(), || {
         from_guarded(guarded(|| s.provider_cursor_status_v1(tid, ProviderCursorStatusV1Request {})), |r| {
             let mut v = to_v(r);
             model::canonicalize_cursor_status(&mut v);
             v
-        }),
-    );
-    out.insert(
-        "selection_status".to_string(),
+        })
+    });
+    out.insert("selection_status".to_string(), || {
         from_guarded(
             guarded(|| s.context_selection_status_v1(tid, ContextSelectionStatusV1Request { limit: p.sel_limit })),
             to_v,
-        ),
-    );
+        )
+    });
     match anchor {
         Some(mid) => {
             let link = ContinuityRunLink {
@@ -152,8 +184,7 @@ pub fn surface(live: &Live, sb: &Sandbox, tid: &str, p: &Params, anchor: Option<
                 origin: "cli".to_string(),
             };
             let snap = sb.data.join("snapshots");
-            out.insert(
-                "compile".to_string(),
+            out.insert("compile".to_string(), || {
                 from_guarded(
                     guarded(|| ripd::verif::compile_context_for_run(s, &live.log, &snap, &link, "11111111-1111-4111-8111-111111111111")),
                     |v| {
@@ -170,14 +201,14 @@ pub fn surface(live: &Live, sb: &Sandbox, tid: &str, p: &Params, anchor: Option<
                         }
                         json!({"result": v, "bundle": bundle})
                     },
-                ),
-            );
+                )
+            });
         }
         None => {
-            out.insert("compile".to_string(), Outcome::Skipped);
+            out.insert("compile".to_string(), || Outcome::Skipped);
         }
     }
-    out
+    out.map
 }
 
 /// The appending reads (rotation target, branch cut resolution), evaluated on throw-away forks.
